@@ -265,13 +265,16 @@ class Recorder:
         """2 when this injected datagram is to be delivered twice back to back (scenario key 'dup': 'all' or an index)."""
         self.inj_count += 1
         mode = self.sc.get('dup')
-        if mode == 'all' or mode == self.inj_count:
+        if mode in ('all', 'allnq') or mode == self.inj_count:
             try:
                 m = wire.parse(data)
                 qu = (not m.is_response) and any(q.cls & 0x8000 for q in m.questions)
+                tc = bool(m.tc)
             except wire.WireError:
-                qu = False
-            self.dup_log.append({'t': self.net.now(), 'qu': qu, 'n': self.inj_count})
+                qu = tc = False
+            if qu and mode == 'allnq':
+                return 1             # every datagram except queries with a QU question (whose copies are answered, finding D9)
+            self.dup_log.append({'t': self.net.now(), 'qu': qu, 'tc': tc, 'n': self.inj_count})
             return 2
         return 1
 
